@@ -219,6 +219,10 @@ fn run_case(target: &str, seed: u64, len: usize) -> (String, String) {
                     rec!(polls.get(), (i + 2).min(a.len() + 1));
                 }
             }
+            {   // inexact size_hint (lower bound 0): same frames required
+                let mut s = signal::from_iter(a.clone().into_iter().filter(|_| true));
+                for i in 0..steps { rec!(s.is_exhausted(), i >= a.len()); rec!(s.next(), at(&a, i)); }
+            }
             let pulled = Rc::new(Cell::new(0usize)); let p2 = pulled.clone();
             let it = a.clone().into_iter().inspect(move |_| p2.set(p2.get() + 1));
             let mut s = signal::from_iter(it);
@@ -243,6 +247,18 @@ fn run_case(target: &str, seed: u64, len: usize) -> (String, String) {
             }
             let mut s = signal::from_interleaved_samples_iter::<_, F2>(samples.clone().into_iter());
             let nf = len / 2;
+            for i in 0..(nf + 2) {
+                rec!(s.is_exhausted(), i >= nf);
+                rec!(s.next(), if i < nf { [samples[2 * i], samples[2 * i + 1]] } else { [0; 2] });
+            }
+            // iterators whose size_hint is inexact (lower bound 0 / no upper bound): legal for Iterator, same frames required
+            let mut s = signal::from_interleaved_samples_iter::<_, F2>(samples.clone().into_iter().filter(|_| true));
+            for i in 0..(nf + 2) {
+                rec!(s.is_exhausted(), i >= nf);
+                rec!(s.next(), if i < nf { [samples[2 * i], samples[2 * i + 1]] } else { [0; 2] });
+            }
+            let sv = samples.clone(); let mut k = 0usize;
+            let mut s = signal::from_interleaved_samples_iter::<_, F2>(std::iter::from_fn(move || { let r = sv.get(k).cloned(); k += 1; r }));
             for i in 0..(nf + 2) {
                 rec!(s.is_exhausted(), i >= nf);
                 rec!(s.next(), if i < nf { [samples[2 * i], samples[2 * i + 1]] } else { [0; 2] });
@@ -451,6 +467,55 @@ fn run_case(target: &str, seed: u64, len: usize) -> (String, String) {
                 run_conv!(Floor::new(a0));
             }
         }
+        "ConstHz::step" | "ConstHz::next" | "Hz::step" | "Phase::next" | "Phase::next_phase" | "Phase::next_phase_wrapped_to"
+        | "Rate::const_hz" | "Rate::hz" | "Saw::next" | "Sine::next" | "Square::next" | "phase" | "rate" => {
+            // float-level reading of C17: the step is the correctly rounded f64 quotient hz / rate, the phase starts at 0
+            // and becomes (phase + step) % 1.0; saw/square/sine are functions of the yielded phase
+            let rates = [4.0f64, 49.0, 44100.0, 3.0, 93.0, 48000.0, 0.5, 98.0];
+            let rate = rates[(seed % 8) as usize];
+            let n = len + 4;
+            let hzs: Vec<f64> = (0..n).map(|k| match (seed as usize + k) % 7 {
+                0 => rate, 1 => 0.0, 2 => rate * 2.5, 3 => 440.0, 4 => rate / 3.0, 5 => 1.0e-3, _ => (rng.next() % 100000) as f64 / 7.0 }).collect();
+            let hz0 = hzs[0];
+            let var = seed % 2 == 0;
+            macro_rules! drive { ($mk:expr, $f:expr) => {{
+                let mut p = 0.0f64;
+                if var {
+                    let (ctl, cc) = src(hzs.clone());
+                    let mut o = $mk(signal::rate(rate).hz(ctl).phase());
+                    for k in 0..n {
+                        let w: f64 = $f(p);
+                        let g: f64 = o.next();
+                        rec!((g - w).abs() <= 1e-12, true);
+                        rec!(cc.get(), k + 1);
+                        p = (p + hzs[k] / rate) % 1.0;
+                    }
+                } else {
+                    let mut o = $mk(signal::rate(rate).const_hz(hz0).phase());
+                    for _k in 0..n {
+                        let w: f64 = $f(p);
+                        let g: f64 = o.next();
+                        rec!((g - w).abs() <= 1e-12, true);
+                        p = (p + hz0 / rate) % 1.0;
+                    }
+                }
+            }}; }
+            // the phase itself: exact
+            {
+                let mut p = 0.0f64;
+                if var {
+                    let (ctl, cc) = src(hzs.clone());
+                    let mut ph = signal::rate(rate).hz(ctl).phase();
+                    for k in 0..n { rec!(ph.next_phase().to_bits(), p.to_bits()); rec!(cc.get(), k + 1); p = (p + hzs[k] / rate) % 1.0; rec!(p >= 0.0 && p < 1.0, true); }
+                } else {
+                    let mut ph = signal::rate(rate).const_hz(hz0).phase();
+                    for _k in 0..n { rec!(ph.next_phase().to_bits(), p.to_bits()); p = (p + hz0 / rate) % 1.0; }
+                }
+            }
+            drive!(|ph: signal::Phase<_>| ph.saw(), |p: f64| 1.0 - 2.0 * p);
+            drive!(|ph: signal::Phase<_>| ph.square(), |p: f64| if p < 0.5 { 1.0 } else { -1.0 });
+            drive!(|ph: signal::Phase<_>| ph.sine(), |p: f64| (2.0 * std::f64::consts::PI * p).sin());
+        }
         "Windower::size_hint" | "Windower::next" => {
             use dasp_signal::window::Windower;
             let l = len + (seed % 6) as usize;
@@ -520,7 +585,7 @@ const TARGETS: &[&str] = &[
     "OffsetAmpPerChannel::next", "Map::next", "ZipMap::next", "Inspect::next", "ClipAmp::next", "Delay::next",
     "RefMut::next", "FromIterator::next", "FromInterleavedSamplesIterator::next", "UntilExhausted::next",
     "Take::next", "IntoInterleavedSamples::next_sample", "Buffered::next", "Buffered::next_frames",
-    "BranchRefA::next", "BranchRcA::next", "Converter::next", "MulHz::next", "Linear::interpolate", "Windower::size_hint", "SharedNode::next_frame",
+    "BranchRefA::next", "BranchRcA::next", "Converter::next", "MulHz::next", "Linear::interpolate", "Windower::size_hint", "SharedNode::next_frame", "Hz::step",
 ];
 
 fn field<'a>(js: &'a str, k: &str) -> &'a str {
